@@ -285,6 +285,8 @@ int case_begin(const char* key, const char* fmt, ...) {
   snprintf(cur_key, sizeof cur_key, "%s", key);
   // mode "conc" (the ThreadSanitizer pass of a property): only the cases that run several threads
   if (!strcmp(G.mode, "conc") && !strstr(key, "thread") && !strstr(key, "concurren")) return 0;
+  // mode "oom" (the allocation-failure build of a property): only the fault-injection cases
+  if (!strcmp(G.mode, "oom") && !strstr(key, "allocation failure")) return 0;
   uint64_t h = hash_bytes(cur_desc, strlen(cur_desc), hash_bytes(key, strlen(key), 7));
   if (G.only >= 0) {
     if (cur_idx != G.only) return 0;
@@ -832,3 +834,47 @@ int structure_words(rng_t* r, uint64_t* w, uint64_t n, unsigned bits) {
       return 0;
   }
 }
+
+
+// ---------------------------------------------------------------- allocation failure injection (build tag "oom": -DVP_OOM)
+// The harness' own malloc family: while the calling thread is armed every request fails with ENOMEM (and is counted); otherwise
+// it goes to glibc. A separate build, so that ASan / valgrind keep their own allocators everywhere else.
+#ifdef VP_OOM
+#include <errno.h>
+extern void* __libc_malloc(size_t);
+extern void* __libc_calloc(size_t, size_t);
+extern void* __libc_realloc(void*, size_t);
+extern void* __libc_memalign(size_t, size_t);
+static __thread int oom_armed;
+static __thread uint64_t oom_failed;
+int vp_oom_available(void) { return 1; }
+void vp_oom_arm(int on) { oom_armed = on; }
+uint64_t vp_oom_failed(void) { return oom_failed; }
+#define OOM_FAIL()      \
+  do {                  \
+    if (oom_armed) {    \
+      oom_failed++;     \
+      errno = ENOMEM;   \
+      return 0;         \
+    }                   \
+  } while (0)
+void* malloc(size_t n) { OOM_FAIL(); return __libc_malloc(n); }
+void* calloc(size_t a, size_t b) { OOM_FAIL(); return __libc_calloc(a, b); }
+void* realloc(void* p, size_t n) { OOM_FAIL(); return __libc_realloc(p, n); }
+void* memalign(size_t al, size_t n) { OOM_FAIL(); return __libc_memalign(al, n); }
+void* aligned_alloc(size_t al, size_t n) { OOM_FAIL(); return __libc_memalign(al, n); }
+int posix_memalign(void** out, size_t al, size_t n) {
+  if (oom_armed) {
+    oom_failed++;
+    return ENOMEM;
+  }
+  void* p = __libc_memalign(al, n);
+  if (!p) return ENOMEM;
+  *out = p;
+  return 0;
+}
+#else
+int vp_oom_available(void) { return 0; }
+void vp_oom_arm(int on) { (void)on; }
+uint64_t vp_oom_failed(void) { return 0; }
+#endif
